@@ -1,94 +1,100 @@
 ---------------------------- MODULE Trace_Writer ----------------------------
-(* Judges event logs of real renders with a failing writer against the REFERENCE part of
-   Writer.tla.  obs.ndjson, one event per line, grouped by run (field t), in the order in which
-   they happened:
-     reset   {t, id, name, kind, k, mode, n, full, modelled, outsF, outsO}
-               a run of template `name` starts; the writer will fail at attempt k (k = n+1: never;
-               mode "count": the fault-free counting run, k = 0); n and full are the number of
-               writes and the output of the counting run of the same template
-     write   {t, i, len, via, rec, res, m}
-               i-th Write/WriteString call on the writer, len bytes offered, m accepted,
-               res "ok"|"fail" (fail = it returned E), rec = number of panics the template had
-               recovered when the call was made, via = who called (write|writestring: the renderer;
-               conv: the driver's Markdown converter called at a macro's return; convshow: the
-               converter called for a shown Markdown value)
-     return  {t, kind, detail, rec, acc, post, ndefer}
-               Run is over: kind "nil" | "E" (err == E, identity) | "wrappedE" | "other" |
-               "hostpanic" (Run panicked into the driver) | "builderror"; acc = the bytes accepted
-               up to and including the first failing attempt
-   The observable part of the Writer.tla state (att, failed, pend, after, nrec, ret) is driven by
-   the events; TemplateRecover is not logged as an event of its own: it is inferred from the
-   recover counter sampled at the next event.  Property-level predicates, all from the statement:
-     NoWriteAfterFail   no attempt reaches the writer while a failure is pending (not recovered)
-     ReturnsE           a failure pending at the end => Run returned exactly E
-     NoHostPanic        the writer failed => Run did not panic into the host
-     Prefix             what the writer accepted up to the failure is a prefix of the fault-free
-                        output ("no byte is written after the failure" presupposes that the bytes
-                        before it are the render's; a deterministic template is assumed - every
-                        catalogue template is)
-   Reading chosen for "returns E": error identity (err == E), as the documentation of Template.Run
-   says "Run returns the error returned by out.Write".  After the template's own code recovered,
-   nothing is demanded of the return value or of later writes (until a later failure, which is
-   again pending until recovered) except that the host does not panic.
-   Runs whose writer never failed (k = n+1, the counting run) carry no demand; a template whose
-   fault-free render does not return nil is outside the property's domain (counted `undefined`).
-   Diagnostic only (stats.driftF / driftO): the outcome is one the implementation-shaped model
-   predicts for the template's shape under the fatal / outError variant of the converter branch. *)
-EXTENDS Writer, Json
-Trace == ndJsonDeserialize("obs.ndjson")
-VARIABLES l, bad, cur, lastrec, failvia, rejected, stats
-tvars == <<s, l, bad, cur, lastrec, failvia, rejected, stats>>
-Ev == Trace[l]
-IsEvent(e) == l <= Len(Trace) /\ Ev.ev = e /\ l' = l + 1
-NoRun == [t |-> 0, name |-> "", k |-> 0, mode |-> "none", full |-> <<>>, modelled |-> FALSE, outsF |-> <<>>, outsO |-> <<>>]
-Stats0 == [runs |-> 0, failing |-> 0, recovered |-> 0, undefined |-> 0, driftF |-> 0, driftO |-> 0, modelled |-> 0]
-TInit == /\ l = 1 /\ bad = <<>> /\ cur = NoRun /\ lastrec = 0 /\ failvia = "none" /\ rejected = FALSE /\ stats = Stats0
-         /\ s = S0(<<>>, 0, FALSE, FALSE)
-IsPrefix(a, b) == Len(a) <= Len(b) /\ \A i \in 1..Len(a) : a[i] = b[i]
-Path == CASE failvia = "conv" -> "converter" [] failvia = "convshow" -> "convshow" [] failvia = "none" -> "none" [] OTHER -> "direct"
-Sig(clause) == [fam |-> "writer", clause |-> clause, path |-> Path]
-Reject(clause) == IF rejected \/ Len(bad) >= 300 THEN bad
-                  ELSE Append(bad, [k |-> l, id |-> cur.t, name |-> cur.name, fk |-> cur.k, mode |-> cur.mode, sig |-> Sig(clause)])
-\* the inferred TemplateRecover: the template recovered a panic since the last failing attempt
-Recovered(x, rec) == IF x.pend /\ rec # lastrec THEN [x EXCEPT !.pend = FALSE, !.nrec = rec] ELSE [x EXCEPT !.nrec = rec]
+(* Judges logs of real renders with a failing writer against the REFERENCE part of Writer.tla.
+   obs.ndjson: one record per template,
+     {id, name, kind, n, full, ckind, cdetail, modelled, outsF, outsO, runs}
+   n, full, ckind = number of Write calls, output and return kind of the fault-free counting run;
+   runs = one entry per (failure index k in 1..n+1, writer mode):
+     {t, k, mode, w, kind, detail, rec, ndefer, acc, post}
+   w    = every Write/WriteString call on the writer, in order: <<len offered, accepted, ok (1) or
+          failed with E (0), number of panics the template had recovered when the call was made,
+          via (0 Write, 1 WriteString, 2 the Markdown converter at a macro's return, 3 the
+          converter for a shown Markdown value)>>
+   kind = what Run did: "nil" | "E" (err == E, identity) | "wrappedE" | "other" | "hostpanic"
+   rec  = number of panics the template's own code had recovered when Run returned
+   acc  = the bytes the writer accepted up to and including the first failing call
 
-TReset == /\ IsEvent("reset")
-          /\ s' = S0(<<>>, Ev.k, FALSE, FALSE)
-          /\ cur' = [t |-> Ev.t, name |-> Ev.name, k |-> Ev.k, mode |-> Ev.mode, full |-> Ev.full,
-                     modelled |-> Ev.modelled, outsF |-> Ev.outsF, outsO |-> Ev.outsO]
-          /\ lastrec' = 0 /\ failvia' = "none" /\ rejected' = FALSE
-          /\ stats' = [stats EXCEPT !.runs = @ + 1] /\ UNCHANGED bad
-\* WriteOk / WriteFail of the reference level
-TWrite == /\ IsEvent("write")
-          /\ LET y == Attempt(Recovered(s, Ev.rec), Ev.res = "ok")
-                 viol == y.after > s.after                  \* this attempt was made while a failure was pending
-             IN /\ s' = y
-                /\ bad' = IF viol THEN Reject("after") ELSE bad
-                /\ rejected' = (rejected \/ viol)
-          /\ lastrec' = IF Ev.res = "fail" THEN Ev.rec ELSE lastrec
-          /\ failvia' = IF Ev.res = "fail" THEN Ev.via ELSE failvia
-          /\ UNCHANGED <<cur, stats>>
+   Each run is replayed through the reference-level actions of Writer.tla: every call is a
+   WriteOk/WriteFail (Attempt) on the observable state (att, failed, pend, after, nrec, ret);
+   TemplateRecover is not logged as an event of its own, it is inferred from the recover counter
+   sampled at the next call.  Property-level predicates, all clauses of the statement:
+     after      NoWriteAfterFail: no call reaches the writer while a failure is pending (not recovered)
+     hostpanic  NoHostPanic: the writer failed => Run did not panic into the host
+     return     ReturnsE: a failure pending at the end => Run returned exactly E
+     prefix     what the writer accepted up to the failure is a prefix of the fault-free output
+                ("no byte is written after the failure" presupposes that the bytes before it are
+                the render's; the catalogue templates are deterministic)
+   Reading chosen for "returns E": error identity (err == E) - the documentation of Template.Run
+   says "Run returns the error returned by out.Write".  After the template's own code recovered
+   nothing is demanded of the return value or of later writes (until a later failure, which is
+   again pending until recovered) except that the host does not panic.  Runs whose writer never
+   failed (k = n+1) carry no demand; a template whose fault-free render does not return nil is
+   outside the property's domain (has no runs; counted `undefined`).
+   Diagnostic only (driftF / driftO): the run's outcome is one the implementation-shaped model
+   predicts for the template's shape under the fatalError / outError variant of the converter branch. *)
+EXTENDS Writer, Json
+R0 == [att |-> 0, failed |-> FALSE, pend |-> FALSE, after |-> 0, nrec |-> 0, ret |-> "none"]
+\* the inferred TemplateRecover: the recover counter moved since the last failing call
+Recovered(x, rec, lastrec) == IF x.pend /\ rec # lastrec THEN [x EXCEPT !.pend = FALSE, !.nrec = rec] ELSE [x EXCEPT !.nrec = rec]
+RECURSIVE Walk(_, _, _)
+Walk(w, i, st) ==
+  IF i > Len(w) THEN st
+  ELSE LET e == w[i]
+           y == Attempt(Recovered(st.x, e[4], st.lastrec), e[3] = 1)         \* WriteOk / WriteFail
+       IN Walk(w, i + 1, [x |-> y, lastrec |-> IF e[3] = 0 THEN e[4] ELSE st.lastrec, via |-> IF e[3] = 0 THEN e[5] ELSE st.via])
 RetOf(kind) == IF kind \in {"nil", "E", "hostpanic"} THEN kind ELSE "other"
-InOuts(outs, y, rec) == \E i \in DOMAIN outs : outs[i].ret = y.ret /\ outs[i].rec = (IF rec > 0 THEN 1 ELSE 0) /\ outs[i].fail = y.failed
-TReturn == /\ IsEvent("return")
-           /\ LET y == [Recovered(s, Ev.rec) EXCEPT !.ret = RetOf(Ev.kind)]
-                  judged == cur.mode # "count" /\ y.failed
-                  clause == IF ~NoHostPanic(y) THEN "hostpanic" ELSE IF ~ReturnsE(y) THEN "return"
-                            ELSE IF ~IsPrefix(Ev.acc, cur.full) THEN "prefix" ELSE "none"
-                  viol == judged /\ clause # "none"
-              IN /\ s' = y
-                 /\ bad' = IF viol THEN Reject(clause) ELSE bad
-                 /\ rejected' = (rejected \/ viol)
-                 /\ stats' = [stats EXCEPT !.failing = @ + (IF judged THEN 1 ELSE 0),
-                                           !.recovered = @ + (IF judged /\ Ev.rec > 0 THEN 1 ELSE 0),
-                                           !.undefined = @ + (IF cur.mode = "count" /\ Ev.kind # "nil" THEN 1 ELSE 0),
-                                           !.modelled = @ + (IF cur.modelled /\ cur.mode # "count" THEN 1 ELSE 0),
-                                           !.driftF = @ + (IF cur.modelled /\ cur.mode # "count" /\ ~InOuts(cur.outsF, y, Ev.rec) THEN 1 ELSE 0),
-                                           !.driftO = @ + (IF cur.modelled /\ cur.mode # "count" /\ ~InOuts(cur.outsO, y, Ev.rec) THEN 1 ELSE 0)]
-           /\ UNCHANGED <<cur, lastrec, failvia>>
-TNext == TReset \/ TWrite \/ TReturn
-Done == l = Len(Trace) + 1 => (ndJsonSerialize("bad.ndjson", bad) /\ ndJsonSerialize("stats.ndjson", <<stats>>))
-Consumed == TLCGet("stats").diameter - 1 = Len(Trace)
-\* the reference invariants hold of every state of a run that was not rejected (cross-check of the bookkeeping above)
-TraceInv == (~rejected /\ cur.mode # "count") => NoWriteAfterFail(s)
+IsPrefix(a, b) == Len(a) <= Len(b) /\ \A i \in 1..Len(a) : a[i] = b[i]
+\* the final reference state of a run, and who made the last failing call
+EndOf(run) == LET st == Walk(run.w, 1, [x |-> R0, lastrec |-> 0, via |-> 0])
+              IN [x |-> [Recovered(st.x, run.rec, st.lastrec) EXCEPT !.ret = RetOf(run.kind)], via |-> st.via]
+ClausesAt(r, run, e) ==
+  LET y == e.x IN
+  IF ~y.failed THEN <<>>
+  ELSE SelectSeq(<<"after", "hostpanic", "return", "prefix">>,
+         LAMBDA c : CASE c = "after" -> ~NoWriteAfterFail(y)
+                      [] c = "hostpanic" -> ~NoHostPanic(y)
+                      [] c = "return" -> ~ReturnsE(y) /\ NoHostPanic(y)   \* (a host panic is reported as such, once)
+                      [] c = "prefix" -> ~IsPrefix(run.acc, r.full))
+Path(via) == CASE via = 2 -> "converter" [] via = 3 -> "convshow" [] OTHER -> "direct"
+InOuts(outs, y, rec) ==
+   \E i \in DOMAIN outs : outs[i].ret = y.ret /\ outs[i].rec = (IF rec > 0 THEN 1 ELSE 0) /\ outs[i].fail = y.failed
+Card(S) == Cardinality(S)
+\* one pass over the runs of a template: the violated clauses of each run, the counters (measured, for the
+\* evidence file) and the model-conformance diagnostic
+RecEval(r) ==
+  LET E == [j \in DOMAIN r.runs |-> EndOf(r.runs[j])]
+      C == [j \in DOMAIN r.runs |-> ClausesAt(r, r.runs[j], E[j])]
+      J == DOMAIN r.runs
+  IN [ok |-> \A j \in J : C[j] = <<>>,
+      bad |-> LET idx == SelectSeq([j \in 1..Len(r.runs) |-> j], LAMBDA j : C[j] # <<>>) IN
+              [i \in 1..Len(idx) |-> [t |-> r.runs[idx[i]].t, fk |-> r.runs[idx[i]].k, mode |-> r.runs[idx[i]].mode,
+                                      clauses |-> C[idx[i]], path |-> Path(E[idx[i]].via)]],
+      tally |-> [runs |-> Len(r.runs),
+                 failing |-> Card({j \in J : E[j].x.failed}),
+                 recovered |-> Card({j \in J : E[j].x.failed /\ r.runs[j].rec > 0}),
+                 undefined |-> IF r.ckind # "nil" THEN 1 ELSE 0,
+                 modelled |-> IF r.modelled THEN Len(r.runs) ELSE 0,
+                 driftF |-> IF r.modelled THEN Card({j \in J : ~InOuts(r.outsF, E[j].x, r.runs[j].rec)}) ELSE 0,
+                 driftO |-> IF r.modelled THEN Card({j \in J : ~InOuts(r.outsO, E[j].x, r.runs[j].rec)}) ELSE 0]]
+RecOk(r) == RecEval(r).ok
+Sig(r) == [fam |-> "writer", name |-> r.name]
+Tally0 == [runs |-> 0, failing |-> 0, recovered |-> 0, undefined |-> 0, modelled |-> 0, driftF |-> 0, driftO |-> 0]
+Add(a, b) == [f \in DOMAIN a |-> a[f] + b[f]]
+
+(* ---- record-walk skeleton (as in spec/lib2/Trace_HTMLEscape.tla; plus the counters) ---- *)
+VARIABLES l, nbad, tally
+Obs == ndJsonDeserialize("obs.ndjson")
+\* every record is evaluated once (TLC evaluates and caches zero-argument constant definitions)
+Evals == [i \in 1..Len(Obs) |-> RecEval(Obs[i])]
+TInit == l = 1 /\ nbad = 0 /\ tally = Tally0 /\ s = R0
+TNext == /\ l <= Len(Obs) /\ l' = l + 1 /\ s' = s
+         /\ nbad' = nbad + (IF Evals[l].ok THEN 0 ELSE 1) /\ tally' = Add(tally, Evals[l].tally)
+BadIdx == SelectSeq([i \in 1..Len(Obs) |-> i], LAMBDA i : ~Evals[i].ok)
+Done == l = Len(Obs) + 1 =>
+          /\ ndJsonSerialize("bad.ndjson",
+               IF nbad = 0 THEN <<>>
+               ELSE [j \in 1..(IF Len(BadIdx) < 400 THEN Len(BadIdx) ELSE 400) |->
+                       [k |-> BadIdx[j], id |-> Obs[BadIdx[j]].id, sig |-> Sig(Obs[BadIdx[j]]), nbad |-> nbad,
+                        runs |-> Evals[BadIdx[j]].bad]])
+          /\ ndJsonSerialize("stats.ndjson", <<tally>>)
+Consumed == TLCGet("stats").diameter - 1 = Len(Obs)
 =============================================================================
